@@ -145,8 +145,8 @@ def shapes(depth):
 # shape with the mask a constant of the branch (needed where the code traverses the whole trie - freeze,
 # nodeCount - because --unwindset cannot name C++ functions with parameters and a global bound explodes).
 ENTRIES = [('unfrozen_node_get', 'symbolic', 4), ('unfrozen_prefix_of_buffer', 'symbolic', 3),
-           ('unfrozen_counts', 'symbolic', 4), ('get_has_unfrozen', 'symbolic', 7), ('has_size_raises', 'symbolic', 2),
-           ('longest_frozen_vs_unfrozen', 'shapes', 10), ('frozen_layout', 'shapes', 8),
+           ('unfrozen_counts', 'shapes', 4), ('get_has_unfrozen', 'symbolic', 7), ('has_size_raises', 'symbolic', 2),
+           ('longest_unfrozen', 'symbolic', 5), ('longest_frozen', 'shapes', 6), ('frozen_layout', 'shapes', 8),
            ('get_has_frozen', 'shapes', 8), ('defrost_refreeze_clear', 'shapes', 6)]
 
 
@@ -329,21 +329,29 @@ static void check_result(bool frozen) {
   }
 }
 
-static void b_longest_frozen_vs_unfrozen() {
+static void b_longest_frozen() {
   any_query(nondet_bool());
   ref_longest();
-  trie::result_t u = T.getLongest(q, qlen);              /* not frozen: goes through trieGetLongest */
-  r_ = u; check_result(false);
   T.freeze();
   __CPROVER_assert(T.isFrozen, "freeze() leaves the trie frozen");
   trie::result_t f = T.getLongest(q, qlen);
   r_ = f; check_result(true);
-  __CPROVER_assert(f.length == u.length && f.valueIndex == u.valueIndex, "getLongest gives the same answer frozen and unfrozen");
   __CPROVER_assert(f.trie_ == &T, "result refers to the trie it came from");
 #ifdef CANARY
   __CPROVER_assert(f.valueIndex != 3 || f.length != 2, "canary");
 #endif
   T.defrost();
+}
+
+static void b_longest_unfrozen() {
+  any_query(nondet_bool());
+  ref_longest();
+  trie::result_t u = T.getLongest(q, qlen);              /* not frozen: goes through trieGetLongest */
+  r_ = u; check_result(false);
+  __CPROVER_assert(u.trie_ == &T, "result refers to the trie it came from");
+#ifdef CANARY
+  __CPROVER_assert(u.valueIndex != 3 || u.length != 2, "canary");
+#endif
 }
 
 static void b_frozen_layout() {
